@@ -216,7 +216,7 @@ Proof.
   - destruct (is_idle _); simpl.
     + eapply RM_trans; [|apply RM_commit]. eapply RM_trans; [|apply RM_check_affected]. frame.
     + eapply RM_trans; [|apply RM_commit]. apply (RM_check_affected sp (s, [])).
-  - destruct (negb r && negb (is_idle _)); [apply RM_refl|].
+  - destruct (negb r && negb (is_idle _)); [exact (RM_commit (s, [OCheck]))|].
     destruct (negb r).
     + simpl. eapply RM_trans; [|apply RM_commit]. eapply RM_trans; [|apply RM_check_affected]. frame.
     + destruct (state_eqb _ SUCCESS); [apply RM_refl|].
